@@ -16,6 +16,10 @@ pub struct Case {
     pub tree: Tree,
     /// Extra (possibly non-existent) subtree paths to list.
     pub extra: Vec<String>,
+    /// Optionally a second, interrupted backup after these edits (stopped before its
+    /// (k+4)-th mutating storage operation): subtree selection of the stitched version.
+    #[serde(default)]
+    pub interrupted: Option<(Vec<crate::history::Edit>, u16)>,
 }
 
 fn enumerate(_tier: Tier, idx: u32, of: u32, cx: &mut Cx) -> CaseResult {
@@ -57,8 +61,12 @@ fn strategy(_tier: Tier) -> BoxedStrategy<Case> {
         prop::collection::vec(tree::name_strategy_for(cfg), 1..4).prop_map(|v| format!("/{}", v.join("/"))),
         0..4,
     );
-    (tree::opts_tree_strategy(cfg), extra)
-        .prop_map(|((opts, tree), extra)| Case { opts, tree, extra })
+    let second = prop::option::weighted(
+        0.4,
+        (prop::collection::vec(crate::history::edit_strategy(cfg), 1..5), 0u16..25),
+    );
+    (tree::opts_tree_strategy(cfg), extra, second)
+        .prop_map(|((opts, tree), extra, interrupted)| Case { opts, tree, extra, interrupted })
         .boxed()
 }
 
@@ -151,6 +159,46 @@ fn run(case: &Case, cx: &mut Cx) -> CaseResult {
         }
         evals += 1;
     }
+    // The same relation on a stitched (interrupted) version.
+    let mut stitched = false;
+    if let Some((edits, k)) = &case.interrupted {
+        let mut t1 = case.tree.clone();
+        for e in edits {
+            crate::history::apply_edit(&mut t1, e);
+        }
+        tree::rematerialise(&case.tree, &t1, &src);
+        let ctl = crate::hooks::Ctl::new(&arch, crate::hooks::Plan::FreezeAtMutating { k: *k as usize + 4, torn: false });
+        let hook: ops::Hook = Some(ctl.clone() as std::sync::Arc<dyn conserve::transport::verif::Interceptor>);
+        let b = ops::backup(&arch, &hook, &src, case.opts, &[]);
+        ensure!(b.panic.is_none(), "C12/backup-panic", "{}", b.describe());
+        let ra = crate::format::scan(&arch);
+        if ctl.triggered() && ra.bands.get(&1).map(|b| b.head.present_nonempty() && b.tail.is_absent()).unwrap_or(false) {
+            stitched = true;
+            let full1 = ops::list_entries(&arch, &None, &Sel::Band(1), "/", &[], 10_000);
+            ensure!(full1.clean(), "C12/stitched-list-error", "{}", full1.describe());
+            let full1 = full1.result.unwrap();
+            let mut subs: Vec<String> = full1.iter().map(|e| e.apath.to_string()).collect();
+            for p in case.tree.paths() {
+                if !subs.contains(&p) {
+                    subs.push(p);
+                }
+            }
+            for s in &subs {
+                let l = ops::list_entries(&arch, &None, &Sel::Band(1), s, &[], 10_000);
+                ensure!(l.clean(), "C12/stitched-subtree-list-error", "subtree {s:?}: {}", l.describe());
+                let got: Vec<String> = l.result.unwrap().iter().map(|e| e.apath.to_string()).collect();
+                let want: Vec<String> = full1.iter().filter(|e| under(s, &e.apath)).map(|e| e.apath.to_string()).collect();
+                if got != want {
+                    return Err(Failure::new(
+                        "C12/stitched-subtree-listing",
+                        format!("interrupted version, subtree {s:?}: got {got:?}, the full listing filtered gives {want:?}"),
+                    ));
+                }
+                evals += 1;
+            }
+        }
+    }
+    cx.label_if(stitched, "stitched-version");
     cx.add_evals(evals);
     let nontrivial_s = subtrees.iter().any(|s| {
         s != "/"
@@ -171,13 +219,13 @@ pub fn prop() -> Prop<Case> {
     Prop {
         id: "C12",
         level: "exploration",
-        rule: "enumeration: is_prefix_of vs byte-wise whole-component containment on every ordered pair of the depth<=3 universe over {a, a., a-, 'a b', b, é, .x, ~, éa, 日, ab}; generated: (options, tree with multi-byte and mutually-extending sibling names) backed up, then for S = every entry plus generated absent paths: listing(S) == full listing filtered by containment (entry-for-entry), and for S = every directory: restore(S) creates exactly the paths under S (+ bare ancestors) with attributes identical to the full restore. Non-trivial = some S is non-ASCII or has an entry that textually extends it without being under it; distinct by case hash / by construction for enumerated pairs",
+        rule: "enumeration: is_prefix_of vs byte-wise whole-component containment on every ordered pair of the depth<=3 universe over {a, a., a-, 'a b', b, é, .x, ~, éa, 日, ab}; generated: (options, tree with multi-byte and mutually-extending sibling names) backed up, then for S = every entry plus generated absent paths: listing(S) == full listing filtered by containment (entry-for-entry), and for S = every directory: restore(S) creates exactly the paths under S (+ bare ancestors) with attributes identical to the full restore; in 40% of cases a second backup after generated edits is interrupted and the listing relation is also checked on the stitched version for every path of either version. Non-trivial = some S is non-ASCII or has an entry that textually extends it without being under it; distinct by case hash / by construction for enumerated pairs",
         assumptions: &["containment oracle is a byte-slice comparison independent of src/apath.rs"],
         cases: |t| t.pick(1500, 60_000),
         strategy,
         run,
         enumerate: Some(enumerate),
         exhaustive: |_| false,
-        max_shrink_iters: 1500,
+        max_shrink_iters: 300,
     }
 }
